@@ -413,6 +413,7 @@ fn judge_prog(p: &Prog, d: Depth, ctx: &mut Ctx) {
         }
     }
     // STOP / END before every statement
+    let lists_itself = text.contains("LIST");
     for at in 0..24 {
         for (nm, what) in [("STOP", Stmt::Stop), ("END", Stmt::End)] {
             if !ctx.begin(&format!("{} ; {} inserted before statement #{}, CONT after every stop", text, nm, at)) {
@@ -447,7 +448,13 @@ fn judge_prog(p: &Prog, d: Depth, ctx: &mut Ctx) {
             let orig = run_with_conts(&lines, &probe);
             let got = run_with_conts(&q.render(), &probe);
             match (orig, got) {
-                (Ok(Some(o)), Ok(Some(g))) => {
+                (Ok(Some(o)), Ok(Some(mut g))) => {
+                    if lists_itself {
+                        // a program that LISTs itself shows the inserted statement: take it out of the listed text
+                        for t in g.0.iter_mut() {
+                            *t = t.replace(&format!("{}:", nm), "");
+                        }
+                    }
                     let otext = normalize_plain(&o.0.concat());
                     ctx.nontrivial(hash64(&(nm, at, &otext)));
                     let same = if nm == "END" {
@@ -582,6 +589,10 @@ pub fn curated() -> Vec<Vec<&'static str>> {
         vec!["10 B%=32000:C#=1/3", "20 B%=B%+700", "30 PRINT B%;C#", "40 B%=B%+700"],
         vec!["10 TRON:FOR I=1 TO 2", "20 PRINT I", "30 NEXT:TROFF", "40 PRINT \"x\""],
         vec!["10 INPUT I", "20 IF I THEN INPUT J,K:PRINT I;J;K", "30 PRINT \"end\""],
+        vec!["10 FOR I=1 TO 4:READ X:S=S+X:NEXT:PRINT \"sum\";S", "20 DATA 1,2", "30 DATA 3,4"],
+        vec!["10 PRINT \"a\";:LIST 20-30:PRINT \"b\"", "20 REM x", "30 REM y", "40 LIST:PRINT \"c\""],
+        vec!["10 A$=INKEY$:B$=INKEY$+\"k\":PRINT A$;B$", "20 FOR I=1 TO 2:C$=C$+INKEY$+\"z\":NEXT:PRINT C$"],
+        vec!["10 DIM D(3):FOR I=0 TO 3:D(I)=I*I:NEXT", "20 GOSUB 50:PRINT \"r\";K", "30 END", "50 FOR J=1 TO 2:K=K+D(J):IF J=2 THEN RETURN", "60 NEXT"],
     ]
 }
 
@@ -643,7 +654,7 @@ impl Check for C13 {
     fn meta(&self, tier: Tier) -> Meta {
         Meta {
             bound: match tier {
-                Tier::Quick => "12 curated programs and all N=1 programs (full alphabet): interrupt after every k-th single-instruction call (k<=160, also at a pending prompt) with and without a direct PRINT before CONT, STOP and END before every statement, uniform quanta 2..48 and 5000, all two-phase schedules over {1,2,3,7,5000} with switch points 1..12, all mixed schedules over {1,2,3} of length <=3, macro-step confluence on the state digest for quanta {1,2,3,5,8,5000}; N=2 medium and N=3 core programs with k<=40 and mixed schedules of length <=2".into(),
+                Tier::Quick => "16 curated programs (INPUT, INKEY$, LIST inside the program, READ/DATA in a loop, GOSUB out of a loop, ...) and all N=1 programs (full alphabet): interrupt after every k-th single-instruction call (k<=160, also at a pending prompt) with and without a direct PRINT before CONT, STOP and END before every statement, uniform quanta 2..48 and 5000, all two-phase schedules over {1,2,3,7,5000} with switch points 1..12, all mixed schedules over {1,2,3} of length <=3, macro-step confluence on the state digest for quanta {1,2,3,5,8,5000}; N=2 medium and N=3 core programs with k<=40 and mixed schedules of length <=2".into(),
                 Tier::Thorough => "as quick with mixed schedules up to length 6 on curated and N=1, N=2 full with length 3 and macro-steps, N=3 medium and N=4 core light".into(),
             },
             rule: "a case is (program, interruption point | STOP/END placement | quantum schedule | macro-step); distinct_nontrivial = distinct (perturbation, baseline transcript) pairs; cases beyond the end of a program's run are not counted".into(),
